@@ -70,7 +70,11 @@ class MarginalRayHeightSolve(BaseSolve):
     def apply(self):
         """Applies the MarginalRayHeightSolve to the optic."""
         ya, ua = self.optic.paraxial.marginal_ray()
-        offset = (self.height - ya[self.surface_idx]) / ua[self.surface_idx]
+        # a shift of this surface changes the ray height on it by the slope
+        # of the ray ARRIVING at it, i.e. the slope behind the previous surface
+        u_in = ua[self.surface_idx - 1] if self.surface_idx > 0 \
+            else ua[self.surface_idx]
+        offset = (self.height - ya[self.surface_idx]) / u_in
 
         offset = float(np.ravel(offset)[0])
         # shift current surface and all subsequent surfaces
